@@ -1217,5 +1217,8 @@ func c18FilterValuesUsed(p *Prog, r *Report, rule string) {
 			r.Check(rule, fmt.Sprintf("%s|filter-value#%d", FnName(fn), idx), used, p.InstrPos(c), "the filter value computed by "+Path(c)+" reaches the filter list or the result")
 		})
 	}
-	r.Floor(rule, "calls returning a filter value", n, 4)
+	r.Stat(rule+".calls returning a filter value", n)
+	if n == 0 {
+		r.Pass(rule, "spine|filter-values", "", "no builder returns filter values (filters are filled through pointers): nothing to lose")
+	}
 }
